@@ -1,8 +1,85 @@
-(* Props/C16.v — pinned statements of property C16 (interpreter totality).
-   Statements only; proofs are in Proofs/Interp*.v.  (first milestone: correspondence only) *)
-From BSV Require Import Base.Hex Model.Opcodes Model.Script Model.Interp Spec.ScriptTok Spec.InterpBSV Run.Exec_C14.
+(* Props/C16.v — pinned statements of property C16 (the interpreter is total; stepping equals run;
+   an error keeps the stacks).  Statements only; proofs are in Proofs/InterpTotal.v.
 
-(* non-vacuity: the model runs `1 2 ADD` to the stack [03] and the specification prescribes the same *)
-Example C16_nonvacuous :
-  Exec_C14.run "interp.run" ["515293"] = "OK:03,;;81,82,147,;0|OK:03,;;*;*|-".
-Proof. vm_compute. reflexivity. Qed.
+   The statements are about the model Model/Interp.v of src/interpreter/*.rs, in which every Vec / slice /
+   usize operation that can panic in Rust returns `Panic`.  The transaction side of the CHECKSIG family
+   (sighash preimage, signature and key parsing, ECDSA: property C15) is a pair of parameters assumed not to
+   panic; `Interpreter::from_script` never reaches it (second group of statements: no assumption at all). *)
+From BSV Require Import Base.Hex Model.Opcodes Model.Script Model.Interp Proofs.InterpTotal.
+
+Section WithTransaction.
+  Variable txctx : Type.
+  Variable sig_preimage : txctx -> nat -> bytes -> outcome bytes.
+  Variable sig_verify : txctx -> bytes -> bytes -> bytes -> outcome bool.
+  Hypothesis sig_preimage_total : forall t c s, sig_preimage t c s <> Panic.
+  Hypothesis sig_verify_total : forall t p s k, sig_verify t p s k <> Panic.
+  Notation next_impl := (next_impl txctx sig_preimage sig_verify).
+  Notation run := (Interp.run txctx sig_preimage sig_verify).
+  Notation steps_to := (steps_to txctx sig_preimage sig_verify).
+
+  (* 1. one step from ANY interpreter value (any bits, index, stacks, with or without a transaction) is
+        a finished signal, a new state or an error — never a panic *)
+  Theorem C16_step_total : forall i : interp txctx, next_impl i <> StepPanic.
+  Proof. exact (step_total txctx sig_preimage sig_verify sig_preimage_total sig_verify_total). Qed.
+
+  (* 2. `run` ends in Ok or Err: the fuel S (number of nested bits left) is never exhausted, and any sequence of
+        successful steps is at most that long *)
+  Theorem C16_terminates : forall i : interp txctx, exists i', run i = RunOk i' \/ run i = RunErr i'.
+  Proof. exact (run_total txctx sig_preimage sig_verify sig_preimage_total sig_verify_total). Qed.
+  Theorem C16_steps_bounded : forall (i : interp txctx) n j, steps_to i n j -> (n <= remaining txctx i)%nat.
+  Proof. exact (steps_bounded txctx sig_preimage sig_verify). Qed.
+
+  (* 3. run() returns Ok(()) / Err exactly when single-stepping with next() reaches None / Some(Err), and it
+        leaves the interpreter in the same state *)
+  Theorem C16_step_equals_run : forall i : interp txctx,
+    (forall i', run i = RunOk i' <-> exists n j, steps_to i n j /\ next_impl j = StepNone i') /\
+    (forall i', run i = RunErr i' <-> exists n j, steps_to i n j /\ next_impl j = StepErr i').
+  Proof. exact (step_equals_run txctx sig_preimage sig_verify). Qed.
+
+  (* 4. a failing step leaves both stacks, the script bits, the index and the separator offset untouched
+        (the state before the step is the last successfully returned state) *)
+  Theorem C16_error_preserves_stacks : forall i i' : interp txctx,
+    next_impl i = StepErr i' ->
+    stack (istate i') = stack (istate i) /\ alt_stack (istate i') = alt_stack (istate i) /\
+    script_bits i' = script_bits i /\ script_index i' = script_index i /\ codesep (istate i') = codesep (istate i).
+  Proof. exact (error_preserves_stacks txctx sig_preimage sig_verify). Qed.
+End WithTransaction.
+
+(* Interpreter::from_script (tx_script = None): no assumption left *)
+Definition notx : Type := Empty_set.
+Definition nopre (t : notx) (_ : nat) (_ : bytes) : outcome bytes := match t with end.
+Definition nover (t : notx) (_ _ _ : bytes) : outcome bool := match t with end.
+
+Theorem C16_step_total_from_script : forall i : interp notx, next_impl notx nopre nover i <> StepPanic.
+Proof. exact (step_total notx nopre nover (fun t => match t with end) (fun t => match t with end)). Qed.
+
+Theorem C16_terminates_from_script :
+  forall bits, exists i', Interp.run notx nopre nover (from_script_bits notx bits None) = RunOk i'
+                       \/ Interp.run notx nopre nover (from_script_bits notx bits None) = RunErr i'.
+Proof. intros bits. exact (run_total notx nopre nover (fun t => match t with end) (fun t => match t with end) _). Qed.
+
+Print Assumptions C16_step_total.
+Print Assumptions C16_terminates.
+Print Assumptions C16_steps_bounded.
+Print Assumptions C16_step_equals_run.
+Print Assumptions C16_error_preserves_stacks.
+Print Assumptions C16_step_total_from_script.
+Print Assumptions C16_terminates_from_script.
+
+(* non-vacuity: a script that runs to the end, one that fails in the middle (the failing OP_ADD leaves [01]),
+   a coinbase bit, and a conditional whose branch is spliced in *)
+Example C16_nonvacuous_ok :
+  exists i', Interp.run notx nopre nover (from_script_bits notx [BOp 81; BOp 82; BOp 147] None) = RunOk i'
+             /\ stack (istate i') = [[x03]].
+Proof. eexists; split; vm_compute; reflexivity. Qed.
+Example C16_nonvacuous_err :
+  exists i', Interp.run notx nopre nover (from_script_bits notx [BOp 81; BOp 147; BOp 82] None) = RunErr i'
+             /\ stack (istate i') = [[x01]] /\ script_index i' = 1%nat.
+Proof. eexists; split; [|split]; vm_compute; reflexivity. Qed.
+Example C16_nonvacuous_coinbase :
+  exists i', next_impl notx nopre nover (from_script_bits notx [BCoinbase [x00]] None) = StepErr i'.
+Proof. eexists; vm_compute; reflexivity. Qed.
+Example C16_nonvacuous_if :
+  exists i', Interp.run notx nopre nover (from_script_bits notx [BOp 0; BIf 100 [BOp 85] (Some [BOp 86])] None) = RunOk i'
+             /\ stack (istate i') = [[x05]] /\ length (script_bits i') = 3%nat.
+Proof. eexists; split; [|split]; vm_compute; reflexivity. Qed.
